@@ -243,6 +243,8 @@ pub struct PeerLog {
 }
 
 struct PlanPeer {
+    /// absolute virtual time at which the connection was created
+    base: Duration,
     fr: Fr,
     plan: PeerPlan,
     seen: usize,
@@ -277,6 +279,8 @@ pub fn frame_reply(fr: Fr, tx: u16, unit: u8, pdu: &[u8]) -> Vec<u8> {
 
 impl Peer for PlanPeer {
     fn on_write(&mut self, now: Duration, data: &[u8]) -> Vec<(Duration, ReadEv)> {
+        // the logs carry absolute times
+        let now = now + self.base;
         let k = self.seen;
         self.seen += 1;
         let mut log = self.log.lock().unwrap();
@@ -777,6 +781,7 @@ pub fn run_client(case: &CliCase) -> CliRun {
                     let plog = Arc::new(Mutex::new(PeerLog::default()));
                     pl.lock().unwrap().push(plog.clone());
                     let peer = PlanPeer {
+                        base: tokio::time::Instant::now() - start,
                         fr,
                         plan: plan.peer.clone(),
                         seen: 0,
